@@ -37,7 +37,7 @@ def o_plumbing(ctx):
     hands options.chains to the record reader unchanged"""
     import propka.lib as L
     import propka.input as I
-    args = ctx.choice('args', [[], ['-c', 'A'], ['-c', ' '], ['-c', 'A', '-c', 'B'], ['--chain', 'B', '-c', ' ']])
+    args = ctx.choice('args', [[], ['-c', 'A'], ['-c', ' '], ['-c', 'A', '-c', 'B'], ['--chain', 'B', '-c', ' '], ['-c', 'a'], ['-c', 'a', '-c', 'A'], ['-c', '1', '-c', 'b']])
     opts = L.loadOptions(args + ['x.pdb'])
     exp = [args[i + 1] for i in range(0, len(args), 2)] or None
     ctx.claim('parsed-chains', opts.chains == exp, detail='%r -> %r' % (args, opts.chains))
@@ -59,6 +59,30 @@ def o_plumbing(ctx):
     ctx.claim('ignore-residues-from-cfg', list(seen.get('ignore')) == list(H.params().ignore_residues))
 
 
+def o_pipeline_selection(ctx):
+    """whole pipeline: two chains (TER between), the second one renamed to an upper-case letter, a lower-case letter, a
+    digit or blank; selecting one chain / both by option gives what the file with the other chain's records deleted gives"""
+    from . import micro as M
+    src = M.text('pair_ASP_ASP')
+    cid = ctx.choice('second_chain_id', ['B', 'a', '1', ' ', 'b'])
+    txt = ''.join((l[:21] + cid + l[22:] + '\n') if (l[:4] == 'ATOM' and l[21] == 'B') else (l + '\n') for l in src.split('\n') if l)
+    sel = ctx.choice('selected', ['first', 'second', 'both'])
+    chains = {'first': ['A'], 'second': [cid], 'both': ['A', cid]}[sel]
+    args = []
+    for c in chains:
+        args += ['-c', c]
+    with_option = M.run(txt, args=args)
+    kept = ''.join(l + '\n' for l in txt.split('\n') if l and not (l[:4] == 'ATOM' and l[21] not in chains))
+    # a TER record left over from a deleted chain stays in the file, as it would when a user deletes the ATOM records
+    deleted = M.run(kept)
+
+    def rec(mol):
+        return sorted((g.type, g.atom.name, g.atom.res_num, g.atom.chain_id, round(g.pka_value, 9), round(g.energy_volume, 9),
+                       tuple(sorted(round(d.value, 9) for k in g.determinants for d in g.determinants[k]))) for g in mol.conformations['AVR'].groups)
+    ctx.claim('selection-equals-deletion(pipeline)', rec(with_option) == rec(deleted), detail='second chain %r, selected %r: %r vs %r' % (cid, chains, rec(with_option)[:3], rec(deleted)[:3]))
+    ctx.claim('something-selected', len(rec(with_option)) > 0)
+
+
 def obligations(tier):
     I = 'propka/input.py:'
     K = 3 if tier == 'quick' else 4
@@ -73,7 +97,10 @@ def obligations(tier):
                               claim_doc='records, terminal tags and conformation names with chains=S == no option on the file without the other chains\' ATOM/HETATM records',
                               max_paths=400000, wall_s=170 if tier == 'quick' else 1500, shards=3 if tier == 'quick' else 8))
     obs.append(Obligation('O2-option-plumbing', o_plumbing, code=['propka/lib.py:build_parser', 'propka/lib.py:loadOptions', I + 'read_pdb'],
-                          bounds='5 command lines', kind='table-check'))
+                          bounds='8 command lines (upper- and lower-case letters, digits, blank)', kind='table-check'))
+    obs.append(Obligation('O3-pipeline-selection', o_pipeline_selection, code=['propka/run.py:single (whole pipeline)', 'propka/molecular_container.py:MolecularContainer.__init__', I + 'read_pdb', I + 'get_atom_lines_from_pdb'],
+                          bounds='two-chain micro-structure, second chain identifier in {B, a, 1, blank, b}, selection first / second / both (15 concrete runs against the files with the other chain deleted)', kind='table-check',
+                          claim_doc='same groups, pKa values, desolvation and determinants'))
     return obs
 
 
